@@ -471,7 +471,7 @@ fn gen_record(rng: &mut Rng, env: &EnvD) -> (u16, Vec<u8>, Option<String>) {
             d.extend_from_slice(&i.to_le_bytes());
             let o = match env.sst.get(i as usize) {
                 Some(s) if !s.is_empty() => Some(format!("ok {row}:{col}:S{}", scalars(s))),
-                Some(_) => None, // a LABELSST naming the empty string: the property does not say
+                Some(_) => Some(format!("ok {row}:{col}:S")), // the empty shared string reads String(""), like an empty LABEL
                 None => None,
             };
             (d, o)
@@ -1223,6 +1223,9 @@ fn corpus() -> Vec<&'static str> {
         "M 17632450602671588669 oo 0 - 090810000006100000000000000000000000000004020f000000000002000300013dd800de160406001900020701000200010001000000ffff00000000000003001e030006001900040000000100030000000000ffff00000000000003001e03000502080004000200020001000a000000",
         // FORMULA with a numeric result under a date XF (typed by the XF since 0b12e07)
         "F 5 od 0 - 1,1,1,0,n40e5700000000000,F00/1e0100/-,-",
+        // LABELSST naming the empty shared string reads String("") (was dropped: C19's finding, fixed from here)
+        "F 6 o 0 _ 0,0,0,0,s,T0,-",
+        "F 6 o 0 61/_ 0,0,0,0,s61,T0,-;2,3,0,0,s,T1,-",
         // date / time-delta XFs on NUMBER and RK cells, 1904 workbook
         "F 4 odt 1 - 0,0,1,0,n40e5700000000000,N,-;0,1,2,0,n3fe0000000000000,K1071644672,-;0,2,1,0,n4059000000000000,K402,-",
     ]
